@@ -547,7 +547,18 @@ Step(e) ==
                      ELSE {}
            names == names1 \cup names2 \cup {pr[1] : pr \in {x \in pairs : x[1] = "DmlMatchesSqlModel"}}
            stale == rv # 0 /\ rv < Lv /\ op \in {"append","delete","update","merge_insert","compact"}
-       IN /\ bad' = AddBad2(names1 \cup names2, pairs, e)
+           \* as built: an in-place column rewrite (merge_insert with a sub-schema source) stamps
+           \* _row_last_updated_at_version with read version + 1 when it writes; committed through a stale handle
+           \* on top of newer versions the stamp stays.  Recognised exactly: the only wrong values are such stamps.
+           staleStamp == /\ op = "merge_insert" /\ "in_place" \in DOMAIN st /\ rv # 0 /\ rv < Lv /\ usable
+                         /\ "VersionColumnsCorrect" \in names2
+                         /\ \A r \in PRows(P) :
+                               (r.id \notin DOMAIN truth2 \/ r.cre # truth2[r.id].cre \/ r.upd # truth2[r.id].upd)
+                                 => (r.id \in DOMAIN truth2 /\ r.cre = truth2[r.id].cre /\ r.upd = rv + 1
+                                     /\ truth2[r.id].upd = P.v)
+       IN /\ bad' = AddBad2((names1 \cup names2) \ (IF staleStamp THEN {"VersionColumnsCorrect"} ELSE {}),
+                            pairs \cup (IF staleStamp THEN {<<"VersionColumnsCorrect", "in-place-rewrite-stamps-read-version-plus-one">>}
+                                        ELSE {}), e)
           \* versions a cleanup removed are forgotten (they can no longer be read or restored)
           /\ obs' = IF op = "cleanup" /\ "rereads" \in DOMAIN e.extra
                     THEN LET rr == e.extra.rereads
